@@ -49,7 +49,7 @@ func toIdP(c *Ctx, r *env.HTTPResult) bool {
 	return r.Status == 302 && strings.HasPrefix(r.Header.Get("Location"), c.W.IdP.Issuer+"/auth")
 }
 
-var c13Failures = []string{"none", "unknown-state", "expired-state", "refuse", "noidtoken", "badsig", "wrongiss", "wrongaud", "expired", "noclaim", "5xx", "garbage", "code-replay", "idp-down", "claim-not-a-name", "claim-name-in-other-case"}
+var c13Failures = []string{"none", "unknown-state", "expired-state", "refuse", "noidtoken", "badsig", "wrongiss", "wrongaud", "expired", "noclaim", "5xx", "garbage", "code-replay", "idp-down", "claim-not-a-name", "claim-name-in-other-case", "callback-url-replayed"}
 
 // runC13: callback failure point x session store x (first callback | existing session),
 // followed by identity persistence and session-cookie mutations.
@@ -89,6 +89,8 @@ func runC13(c *Ctx) {
 		return true
 	}
 	b := c.W.NewBrowser("b1", "10.2.0.5:51000")
+	b.VaryPort = c.T.Bool(1, 2)
+	c.W.IdP.NoExpiresIn = c.T.Bool(1, 4)
 	if existing {
 		// the session already exists (an earlier visit that did not log in)
 		if r := b.Get("/connect"); !toIdP(c, r) {
@@ -121,6 +123,22 @@ func runC13(c *Ctx) {
 		delete(c.W.IdP.Codes, code)
 	case "idp-down":
 		c.W.IdP.Down = true
+	case "callback-url-replayed":
+		// somebody else completed a login through this gateway a moment ago; this browser sends
+		// the very same callback URL (state and code as seen in a proxy log or a browser history):
+		// the state is still young, the code has been redeemed, the provider refuses it
+		v := c.W.NewBrowser("bv", "10.2.0.8:51008")
+		vst, _ := v.StartLogin("/connect")
+		vcode := c.W.IdP.NewCode(&env.IdPUser{Sub: "sub-victor", Claims: map[string]any{"preferred_username": "victor"}})
+		if cbv := v.Get("/callback?state=" + url.QueryEscape(vst) + "&code=" + url.QueryEscape(vcode)); vst == "" || cbv.Status != 302 {
+			c.S.Fail("C13", "valid-login-not-authenticated", "login of another user failed: callback %d", cbv.Status)
+			return
+		}
+		c.S.Advance(time.Duration(c.T.Choose(60)) * time.Second)
+		cbState, code = vst, vcode
+		if c.T.Bool(1, 3) {
+			c.W.IdP.Down = true // ... or cannot be reached at all
+		}
 	case "claim-name-in-other-case":
 		// claims whose names differ from the user-name claims only in letter case are other claims
 		user.Claims = map[string]any{[]string{"UPN", "Preferred_Username", "UserName", "Unique_Name", "PREFERRED_USERNAME"}[c.T.Choose(5)]: userName}
@@ -445,6 +463,8 @@ func runC12(c *Ctx) {
 	// the requesting client address: peer or first X-Forwarded-For element
 	clientIP := []string{"10.2.0.5", "2001:db8::5", "192.0.2.77", "2001:db8::7:20", "fe80::1:2", "::ffff:10", "::ffff:198.51.100.7", "2001:DB8::7", "2001:0db8:0:0:0:0:0:7", "010.2.0.5"}[c.T.Choose(10)]
 	b := c.W.NewBrowser("b1", peerOf(clientIP, 51000))
+	b.VaryPort = c.T.Bool(1, 2)
+	c.W.IdP.NoExpiresIn = c.T.Bool(1, 4)
 	// (spellings a proxy may forward that are not the canonical text of the address travel in
 	// X-Forwarded-For only: a TCP peer address is always canonical)
 	if c.T.Bool(1, 3) || clientIP != canonicalIP(clientIP) {
@@ -585,20 +605,53 @@ func runC12(c *Ctx) {
 		return
 	}
 	c.S.Count("probe.file_issued." + pol.mode)
+	if c.T.Bool(1, 6) && len(r.Body) > 40 {
+		// the download broke off somewhere and the client resumes it a moment later (Range with
+		// If-Range on what the first answer said about the file): whatever the client ends up
+		// with must be ONE connection file whose token verifies
+		cut := 1 + c.T.Choose(len(r.Body)-1)
+		c.S.Advance(time.Duration(c.T.Choose(4)) * time.Second)
+		hd := [][2]string{{"Range", fmt.Sprintf("bytes=%d-", cut)}}
+		if lm := r.Header.Get("Last-Modified"); lm != "" {
+			hd = append(hd, [2]string{"If-Range", lm})
+		} else if et := r.Header.Get("Etag"); et != "" {
+			hd = append(hd, [2]string{"If-Range", et})
+		}
+		r3 := b.Request("GET", path, hd)
+		c.S.Count("probe.download_resumed_with_range")
+		if r3.Status == 206 && len(hd) == 2 {
+			whole := append(append([]byte{}, r.Body[:cut]...), r3.Body...)
+			f3 := env.ParseRDP(whole)
+			t3 := f3.Values["gatewayaccesstoken"]
+			if _, _, ok3 := codec.SplitJWS(t3); !ok3 || !codec.VerifyHS256(t3, []byte(cfg.PAASigningKey)) || len(f3.Bad) > 0 {
+				c.S.Fail("C12", "resumed-download-spliced", "%s: the download was cut after %d bytes and resumed with If-Range; the gateway answered 206 with the tail of ANOTHER file: the assembled file's token does not verify (a connection file is generated afresh for every request)", descr, cut)
+				return
+			}
+		}
+	}
 	// history: the same user downloads again shortly afterwards from another address in a new
 	// session (fresh IdP access token): the second file must bind the second request
 	if c.T.Bool(1, 2) && pol.mode != "signed" {
 		c.S.Advance(time.Duration(c.T.Choose(50)) * time.Second)
 		ip2 := []string{"10.2.7.7", "2001:db8::77", "192.0.2.78"}[c.T.Choose(3)]
 		b2 := c.W.NewBrowser("b2", peerOf(ip2, 51500))
-		if ok, cb := b2.Login("/connect", user); !ok {
-			c.S.Fail("C13", "valid-login-not-authenticated", "%s: second login failed: callback %d", descr, cb.Status)
-			return
-		}
 		var tok2idp string
-		for t, v := range c.W.IdP.Tokens {
-			if v.Sub == pol.sub && t != idpToken {
-				tok2idp = t
+		if c.T.Bool(1, 3) {
+			// ... or in the SAME session: a roaming client whose address changed keeps its cookie
+			for k, v := range b.Jar {
+				b2.Jar[k] = v
+			}
+			tok2idp = idpToken
+			descr += " second-download-in-the-same-session-from-" + ip2
+		} else {
+			if ok, cb := b2.Login("/connect", user); !ok {
+				c.S.Fail("C13", "valid-login-not-authenticated", "%s: second login failed: callback %d", descr, cb.Status)
+				return
+			}
+			for t, v := range c.W.IdP.Tokens {
+				if v.Sub == pol.sub && t != idpToken {
+					tok2idp = t
+				}
 			}
 		}
 		r2 := b2.Get(path)
